@@ -450,7 +450,13 @@ func ruleC12Hooks(cx *Ctx) {
 			for _, e := range allEvents(o, "Calc") {
 				durs[e.Args[1]] = true
 			}
-			nows := map[string]bool{"param:nowNano": true}
+			// the time base is a clock sample taken by this operation; a time handed in from outside counts only for a
+			// mechanism that received one on the pinned tree already (a completion callback given the time at which its
+			// load *started* would date the entry back by the load's duration)
+			nows := map[string]bool{}
+			if baselineHasParam(r.fn, "nowNano") || baselineHasParam(r.fn, "nowNanos") {
+				nows["param:nowNano"], nows["param:nowNanos"] = true, true
+			}
 			for _, e := range allEvents(o, "Now") {
 				nows[e.Args[0]] = true
 			}
@@ -605,9 +611,58 @@ func ruleC12Hooks(cx *Ctx) {
 					a.check(name+": no read hook", reads == 0, "an operation that is not a read of the entry does not consult ExpireAfterRead (it would move the deadline the operation sets or leaves alone)", fmt.Sprintf("%d", reads), o)
 				}
 			case "setIfAbsent":
-				if we, k := flagOf(o, "withExpiration"); k && we {
+				we, k := flagOf(o, "withExpiration")
+				if k && we {
 					a.check(name+": read hook at most once", reads <= 1, "SetIfAbsent on a live entry reads it once", fmt.Sprintf("%d", reads), o)
 				}
+				// the no-op on a live entry is a read of that entry: exactly once (a path that never asks whether
+				// expiration is configured cannot have consulted the hook)
+				if !(k && !we) {
+					for _, c := range tableComps(o) {
+						if c.closed && effectOf(c) == "unchanged" && preState(o, c.cur) == "L" {
+							if exp, ek := expiredOf(o, c.cur); ek && !exp {
+								a.check(name+" on a live entry: read hook once", reads == 1, "SetIfAbsent that finds a live entry is a read of it: ExpireAfterRead is consulted exactly once", fmt.Sprintf("%d", reads), o)
+							}
+						}
+					}
+				}
+			}
+			// the duration a hook returned is applied: a Calc event is followed by a store of now + that duration, unless the
+			// path decided on that very duration that there is nothing to do (non-positive, or equal to the current one)
+			for i, e := range o.S.trace {
+				if e.Kind != "Calc" || len(e.Args) < 2 {
+					continue
+				}
+				d := e.Args[1]
+				stored := false
+				for _, x := range o.S.trace[i+1:] {
+					var v string
+					switch x.Kind {
+					case "SetExpiresAt", "SetRefreshableAt":
+						v = x.Args[1]
+					case "CASExpiresAt", "CASRefreshableAt":
+						v = x.Args[2]
+					}
+					if strings.HasPrefix(v, "satadd(") && strings.HasSuffix(v, ","+d+")") {
+						stored = true
+					}
+				}
+				if stored {
+					continue
+				}
+				why := ""
+				for atom, v := range o.S.preds {
+					if !strings.Contains(atom, d) {
+						continue
+					}
+					switch {
+					case atom == "("+d+"<=const(0))" && v, atom == "("+d+">const(0))" && !v:
+						why = "non-positive"
+					case strings.HasPrefix(atom, "Eq(") && v, strings.HasPrefix(atom, "(abs(") && strings.HasSuffix(atom, ">const(0))") && !v:
+						why = "unchanged"
+					}
+				}
+				a.check(name+" "+e.Args[0]+": duration applied", why != "", "the duration returned by a hook is stored as now + duration unless it is non-positive or equal to the entry's current one (no other test may drop it)", "hook result "+d+" neither stored nor shown redundant", o)
 			}
 			// the explicit deadline setters: on a live entry the deadline is stored, unless the path decided - by looking
 			// at that very deadline - that it already has the requested value
